@@ -345,3 +345,48 @@ func TestC16_ArbitraryFactor(t *testing.T) {
 		cl.done(len(pos)+len(neg) >= 2 || zero != nil)
 	})
 }
+
+// TestC16_OverflowingTotal: bins whose weights are finite but whose total is not (two or more bins around 2^1022):
+// reweighting by a power of two below one must still scale every bin exactly (the totals, which overflowed, are not
+// compared: a running total that became +Inf stays +Inf).
+func TestC16_OverflowingTotal(t *testing.T) {
+	rapid.Check(t, func(t *rapid.T) {
+		cl := newCase("C16")
+		kind := gen.AnyKind().Draw(t, "kind")
+		if kind.Collapsing() {
+			kind.N = rapid.SampledFrom([]int{4, 8, 64}).Draw(t, "N")
+		}
+		s := kind.New()
+		base := rapid.SampledFrom([]int{0, -40, 1000, math.MaxInt32 - 10, math.MinInt32 + 10}).Draw(t, "base")
+		n := rapid.IntRange(2, 4).Draw(t, "bins")
+		want := map[int]float64{}
+		for i := 0; i < n; i++ {
+			w := math.Ldexp(rapid.SampledFrom([]float64{1, 1.5, 1.25}).Draw(t, "m"), rapid.IntRange(1021, 1022).Draw(t, "e"))
+			idx := base + i
+			if base > 0 && base+i > math.MaxInt32 {
+				idx = base - i
+			}
+			s.AddWithCount(idx, w)
+			want[idx] += w
+		}
+		cl.logf("C16 overflowing total kind=%s bins=%v", kind, want)
+		cl.label("overflowing-total")
+		cl.label("kind:" + kind.Name)
+		steps := rapid.IntRange(1, 3).Draw(t, "steps")
+		for k := 0; k < steps; k++ {
+			f := math.Ldexp(1, -rapid.IntRange(1, 12).Draw(t, "fexp"))
+			if err := s.Reweight(f); err != nil {
+				t.Fatalf("C16 overflowing total %s: Reweight(%v): %v", kind, f, err)
+			}
+			for i := range want {
+				want[i] *= f
+			}
+			got := map[int]float64{}
+			s.ForEach(func(i int, c float64) bool { got[i] += c; return false })
+			if fmt.Sprint(got) != fmt.Sprint(want) {
+				t.Fatalf("C16 overflowing total %s: after Reweight(%v) the bins are %v, expected %v", kind, f, got, want)
+			}
+		}
+		cl.done(true)
+	})
+}
